@@ -14,6 +14,7 @@ from concurrent.futures import ThreadPoolExecutor
 
 from .. import core
 from . import pybind_common
+from ..gen import scopes
 
 
 def run_workers(jobs):
@@ -60,6 +61,10 @@ def run(tier, replay=None):
                 vs = rng.sample(vectors, per - 2) + rng.sample(wild, 2)
                 jobs.append({'id': len(jobs), 'source': c['source'], 'filename': '/nonexistent-verif-root/p%d.py' % c['id'],
                              'vectors': vs, 'seeds': [rng.randrange(1 << 30) for _ in vs], 'unparse': True, 'kind': 'generated'})
+            for mi, src in enumerate(scopes.gen_modules(seed * 13 + 1, 1200 if thorough else 120)):
+                vs = rng.sample(vectors, per - 2) + rng.sample(wild, 2)
+                jobs.append({'id': len(jobs), 'source': src, 'filename': '/nonexistent-verif-root/s%d.py' % mi,
+                             'vectors': vs, 'seeds': [rng.randrange(1 << 30) for _ in vs], 'unparse': True, 'kind': 'scopes'})
             files = sorted(glob.glob(os.path.join(core.REPO, 'supp', '*.py')) + glob.glob(os.path.join(core.REPO, 'tests', '*.py')))
             import sysconfig
             std = sorted(glob.glob(os.path.join(sysconfig.get_paths()['stdlib'], '*.py')))
